@@ -495,6 +495,14 @@ struct Rw<'a> {
     tail_loop_start: Option<usize>,
     /// for-loops: (ordinal among all loops, start of the iterable expression)
     for_iters: Vec<(usize, usize)>,
+    /// T17: `if` statements (by ordinal) whose then-block is replaced by a call to an assumed stub
+    outline: HashMap<usize, String>,
+    if_count: usize,
+    /// (ordinal, end offset) of every `if` expression
+    if_ends: Vec<(usize, usize)>,
+    /// splices for the `Poll::Pending => return Poll::Pending` arm of the k-th ready!() expansion
+    ready_splices: HashMap<usize, String>,
+    ready_count: usize,
 }
 
 fn path_is(p: &syn::Path, segs: &[&str]) -> bool {
@@ -562,7 +570,14 @@ impl<'a> Rw<'a> {
                     Ok(e) => {
                         self.fire("T3.ready");
                         self.ed.replace((whole.0, open.1), "(match ", "T3.ready");
-                        self.ed.replace((close.0, whole.1), " { Poll::Ready(vx_t) => vx_t, Poll::Pending => return Poll::Pending })", "T3.ready");
+                        let k = self.ready_count;
+                        self.ready_count += 1;
+                        let sp = self.ready_splices.get(&k).cloned().unwrap_or_default();
+                        if sp.is_empty() {
+                            self.ed.replace((close.0, whole.1), " { Poll::Ready(vx_t) => vx_t, Poll::Pending => return Poll::Pending })", "T3.ready");
+                        } else {
+                            self.ed.replace((close.0, whole.1), &format!(" {{ Poll::Ready(vx_t) => vx_t, Poll::Pending => {{\n{sp}\nreturn Poll::Pending }} }})"), "T3.ready");
+                        }
                         self.visit_expr(&e);
                     }
                     Err(e) => self.errors.push(format!("ready! argument does not parse: {e}")),
@@ -696,6 +711,16 @@ impl<'a, 'ast> Visit<'ast> for Rw<'a> {
                             }
                         }
                     }
+                    // T10.self_alias: `let this = &mut *self;` is a plain reborrow of self; uses of `this` become `self`
+                    if let syn::Pat::Ident(pi) = &l.pat {
+                        let init_txt: String = self.src.slice(self.r(init.expr.span())).split_whitespace().collect();
+                        if init_txt == "&mut*self" && pi.mutability.is_none() && pi.by_ref.is_none() {
+                            self.fire("T10.self_alias");
+                            self.aliases.insert(pi.ident.to_string(), String::new());
+                            self.ed.replace(self.r(s.span()), "", "T10.self_alias");
+                            return;
+                        }
+                    }
                     // T2.alias: let x = this.f;
                     if let (syn::Pat::Ident(pi), syn::Expr::Field(f), Some(pv)) = (&l.pat, &*init.expr, self.proj_var.clone()) {
                         if let syn::Member::Named(fid) = &f.member {
@@ -760,6 +785,23 @@ impl<'a, 'ast> Visit<'ast> for Rw<'a> {
                 self.fire("T6.unsafe_block");
                 let k = self.r(u.unsafe_token.span());
                 self.ed.replace(k, "", "T6.unsafe_block");
+                visit::visit_expr(self, e);
+            }
+            syn::Expr::If(i) => {
+                let k = self.if_count;
+                self.if_count += 1;
+                self.if_ends.push((k, self.r(e.span()).1));
+                if let Some(call) = self.outline.get(&k).cloned() {
+                    // T17: the block is replaced by its assumed contract (a stub call)
+                    self.fire("T17.outline_block");
+                    let r = self.r(i.then_branch.span());
+                    self.ed.replace(r, &format!("{{ {call}; }}"), "T17.outline_block");
+                    self.visit_expr(&i.cond);
+                    if let Some((_, e)) = &i.else_branch {
+                        self.visit_expr(e);
+                    }
+                    return;
+                }
                 visit::visit_expr(self, e);
             }
             syn::Expr::Closure(c) => {
@@ -971,9 +1013,14 @@ impl<'a, 'ast> Visit<'ast> for Rw<'a> {
                 if p.qself.is_none() {
                     if let Some(id) = p.path.get_ident() {
                         if let Some(f) = self.aliases.get(&id.to_string()).cloned() {
-                            self.fire("T2.alias");
                             let whole = self.r(e.span());
-                            self.ed.replace(whole, &format!("(&mut self.{f})"), "T2.alias");
+                            if f.is_empty() {
+                                self.fire("T10.self_alias");
+                                self.ed.replace(whole, "self", "T10.self_alias");
+                            } else {
+                                self.fire("T2.alias");
+                                self.ed.replace(whole, &format!("(&mut self.{f})"), "T2.alias");
+                            }
                             return;
                         }
                         if self.destructured.contains(&id.to_string()) {
@@ -999,10 +1046,21 @@ impl<'a, 'ast> Visit<'ast> for Rw<'a> {
                                 let l = self.r(b.left.span());
                                 let rr = self.r(b.right.span());
                                 let whole = self.r(e.span());
-                                let lt = self.src.slice(l).to_string();
+                                let mut lt = self.src.slice(l).to_string();
+                                for (al, tgt) in self.aliases.iter() {
+                                    if tgt.is_empty() && lt.starts_with(&format!("{al}.")) {
+                                        lt = format!("self.{}", &lt[al.len() + 1..]);
+                                    }
+                                }
+                                if let Some(pv) = &self.proj_var {
+                                    if lt.starts_with(&format!("{pv}.")) {
+                                        lt = format!("self.{}", &lt[pv.len() + 1..]);
+                                    }
+                                }
                                 let m = if is_add { "wrapping_add" } else { "wrapping_sub" };
                                 self.ed.replace((l.1, rr.0), &format!(".0 = {lt}.0.{m}("), "T7.wrapping");
                                 self.ed.suffix(whole.1, ")", "T7.wrapping");
+                                self.visit_expr(&b.left);
                                 return;
                             }
                         }
@@ -1201,6 +1259,11 @@ fn new_rw<'a>(src: &'a Src, facts: &'a Facts) -> Rw<'a> {
         tail_loop_depth: 0,
         tail_loop_start: None,
         for_iters: vec![],
+        outline: HashMap::new(),
+        if_count: 0,
+        if_ends: vec![],
+        ready_splices: HashMap::new(),
+        ready_count: 0,
     }
 }
 
@@ -1215,6 +1278,18 @@ fn emit_fn(src: &Src, facts: &Facts, spec: &FnSpec, vspec_name: &str, out: &mut 
     let mut rw = new_rw(src, facts);
     rw.assoc = loc.assoc.clone();
     rw.poll_try = spec.opts.contains("poll-try");
+    for (pos, b) in spec.at.iter() {
+        if let Some(k) = pos.strip_prefix("ready-pending ") {
+            if let Ok(k) = k.trim().parse::<usize>() {
+                rw.ready_splices.insert(k, b.text.clone());
+            }
+        }
+        if let Some(k) = pos.strip_prefix("outline-if ") {
+            if let Ok(k) = k.trim().parse::<usize>() {
+                rw.outline.insert(k, b.text.trim().trim_end_matches(';').to_string());
+            }
+        }
+    }
 
     // ---- signature
     let sig = loc.sig;
@@ -1358,6 +1433,12 @@ fn emit_fn(src: &Src, facts: &Facts, spec: &FnSpec, vspec_name: &str, out: &mut 
                 }
             }
         }
+        for (k, end) in rw.if_ends.clone() {
+            let key = format!("after-if {k}");
+            if let Some(b) = spec.at.get(&key) {
+                rw.ed.splice(end, &format!("\n{}", b.text), &tag(&key, b), true);
+            }
+        }
         let closures = rw.closures.clone();
         for (k, (hdr_end, bs, be, is_block)) in closures.iter().enumerate() {
             let key = format!("closure {k}");
@@ -1394,13 +1475,16 @@ fn emit_fn(src: &Src, facts: &Facts, spec: &FnSpec, vspec_name: &str, out: &mut 
         }
         for pos in spec.at.keys() {
             let ok = match pos.split_once(' ') {
-                None => pos == "entry" || pos == "end",
+                None => pos == "entry" || pos == "end" || pos == "impl-items",
                 Some(("exit", n)) => n.parse::<usize>().map(|n| n < returns.len()).unwrap_or(false),
                 Some(("panic", n)) => n.parse::<usize>().map(|n| n < panics.len()).unwrap_or(false),
                 Some(("loop-end", n)) => n.parse::<usize>().map(|n| n < loops.len()).unwrap_or(false),
                 Some(("loop-begin", n)) => n.parse::<usize>().map(|n| n < loops.len()).unwrap_or(false),
                 Some(("arm", n)) => n.parse::<usize>().map(|n| n < arms.len()).unwrap_or(false),
                 Some(("after-call", _)) => true,
+                Some(("ready-pending", n)) => n.parse::<usize>().map(|n| n < rw.ready_count).unwrap_or(false),
+                Some(("after-if", n)) => n.parse::<usize>().map(|n| n < rw.if_count).unwrap_or(false),
+                Some(("outline-if", n)) => n.parse::<usize>().map(|n| n < rw.if_count).unwrap_or(false),
                 Some(("closure", n)) => n.parse::<usize>().map(|n| n < closures.len()).unwrap_or(false),
                 _ => false,
             };
@@ -1436,10 +1520,12 @@ fn emit_fn(src: &Src, facts: &Facts, spec: &FnSpec, vspec_name: &str, out: &mut 
         let hstart = src.range(imp.impl_token.span()).0;
         let hend = src.range(imp.brace_token.span.open()).0;
         if let Some((_, p, for_tok)) = &imp.trait_ {
-            let ps = src.range(p.span()).0;
-            let fe = src.range(for_tok.span()).1;
-            hrw.ed.replace((ps, fe), "", "T5.trait_impl_as_inherent");
-            rw.fire("T5.trait_impl_as_inherent");
+            if !spec.opts.contains("keep-trait") {
+                let ps = src.range(p.span()).0;
+                let fe = src.range(for_tok.span()).1;
+                hrw.ed.replace((ps, fe), "", "T5.trait_impl_as_inherent");
+                rw.fire("T5.trait_impl_as_inherent");
+            }
         }
         let mut h = render(src, (hstart, hend), &hrw.ed)?;
         for b in &spec.extra_bounds {
@@ -1453,6 +1539,11 @@ fn emit_fn(src: &Src, facts: &Facts, spec: &FnSpec, vspec_name: &str, out: &mut 
         out.push("\n", Origin::Gen);
         out.push_rendered(&h);
         out.push("{\n", Origin::Gen);
+        if let Some(b) = spec.at.get("impl-items") {
+            for (k, pl) in b.text.lines().enumerate() {
+                out.push(&format!("{pl}\n"), Origin::Splice { tag: format!("{vspec_name}:{}:{}:impl-items", b.line + k, spec.key) });
+            }
+        }
     } else {
         out.push("\n", Origin::Gen);
     }
@@ -1464,7 +1555,9 @@ fn emit_fn(src: &Src, facts: &Facts, spec: &FnSpec, vspec_name: &str, out: &mut 
             out.push(&format!("#[{a}]\n"), Origin::Gen);
         }
     }
-    out.push("pub ", Origin::Gen);
+    if !spec.opts.contains("keep-trait") {
+        out.push("pub ", Origin::Gen);
+    }
     let mut sig_r = render(src, sig_range, &rw.ed)?;
     for (from, to) in &spec.sig_replace {
         if !sig_r.text.contains(from.as_str()) {
